@@ -348,6 +348,8 @@ class MDict(Model):
       return [(changed, "exc:RuntimeError", None, {}),
               (B.and_(B.not_(changed), done), "exc:StopIteration", None, {}),
               (B.and_(B.not_(changed), B.not_(done)), "ok", (key, val), {})]
+    if op == "snapshot_items":     # list(d.items()): atomic
+      return [(T, "ok", tuple([size] + ks + vs), {})]
     if op == "snapshot_keys":
       return [(T, "ok", tuple([size] + ks), {})]
     if op == "snapshot_values":
